@@ -447,6 +447,109 @@ struct Runner {
 		return ok;
 	}
 
+	// ------------------------------------------------ bucket level (finding F9): the hash set of the unique index unique(a,b) against the model `tableidx`
+	// Second suite `<name>_idx`, stateless: one op line = the complete layout of the hash set before one successful single-column update of a
+	// column of unique(a,b) (generations newest first, buckets, max-probe state, items in insertion order with the hash code of their raw's
+	// current key), one answer line = what is observed after the update (is the raw reachable through Find, count, capacity, generations, checksum
+	// of the layout with the stored short hashes). Momo.TIdx.updCol predicts the answer line from the op line.
+	Suite* sx = nullptr;
+	static uint64_t mixh(uint64_t h, uint64_t x) { return h * 1000003ull + x + 1; }
+	static void appU(std::string& s, char sep, uint64_t v) { char buf[24]; int k = 24; do { buf[--k] = (char)('0' + v % 10); v /= 10; } while (v); s += sep; s.append(buf + k, (size_t)(24 - k)); }
+	struct IdxShot {
+		std::string body;		// " G <L> B <i> <m> <e> <id>:<hash> ..." (only with wantBody)
+		std::vector<size_t> gensL;	// newest first
+		uint64_t sum = 0;		// = Momo.TIdx.layoutSumU
+		bool sane = true;		// every stored short hash is that of its raw's current key, no raw twice, as many items as GetCount()
+		size_t count = 0, cap = 0;
+	};
+	// (calls the hash function of the index: not while a hash fault is armed; the tick counter is put back)
+	template<typename HS>
+	IdxShot idxShot(HS& hs, bool wantBody) {
+		typedef typename HS::Bucket Bucket;
+		static_assert(std::is_same<Bucket, momo::internal::BucketOpen2N2<typename HS::BucketItemTraits, 3, true>>::value,
+			"the hash set of a unique index is expected to use BucketOpen2N2<ItemTraits, 3, useHashCodePartGetter = true>");
+		static_assert(std::is_same<decltype(Bucket::mHashData.shortHashes[0]), uint8_t&>::value, "7-bit short hashes kept in bytes");
+		IdxShot s; s.count = hs.GetCount(); s.cap = hs.GetCapacity();
+		uint64_t ticks = g_hashCalls;
+		uint64_t h = 0; size_t items = 0;
+		std::set<int> seen;
+		for (auto* bk = hs.mBuckets; bk != nullptr; bk = bk->GetNextBuckets()) {
+			size_t L = bk->GetLogCount(), nb = bk->GetCount();
+			s.gensL.push_back(L);
+			h = mixh(mixh(h, 7777), L);
+			if (wantBody) { s.body += " G"; appU(s.body, ' ', L); }
+			for (size_t i = 0; i < nb; ++i) {
+				Bucket& b = (*bk)[i];
+				size_t cnt = (size_t)(b.mState[1] & 3), m = b.mState[0], e = (size_t)(b.mState[1] >> 2);
+				size_t mp = m << e;
+				if (mp != b.GetMaxProbe(L) || cnt != b.GetBounds(bk->GetBucketParams()).GetCount()) s.sane = false;
+				if (cnt == 0 && mp == 0) continue;
+				h = mixh(mixh(h, i), mp);
+				if (wantBody) { s.body += " B"; appU(s.body, ' ', i); appU(s.body, ' ', m); appU(s.body, ' ', e); }
+				for (size_t j = 0; j < cnt; ++j) {	// insertion order = GetBounds order = physical slots maxCount-1, maxCount-2, ...
+					size_t slot = Bucket::maxCount - 1 - j;
+					Raw* raw = (&b.mItems)[slot];
+					int id = idOfRaw(raw);
+					uint64_t code = (uint64_t)hs.GetHashTraits().GetHashCode(raw);
+					uint64_t stored = b.mHashData.shortHashes[slot];
+					if (stored != (code >> 57)) s.sane = false;
+					if (!seen.insert(id).second) s.sane = false;
+					h = mixh(mixh(h, (uint64_t)id), stored);
+					if (wantBody) { appU(s.body, ' ', (uint64_t)id); appU(s.body, ':', code); }
+					++items;
+				}
+			}
+		}
+		if (items != s.count) s.sane = false;
+		s.sum = h;
+		g_hashCalls = ticks;
+		return s;
+	}
+	struct IdxPre { bool have = false; IdxShot shot; uint64_t hold = 0; size_t fired0 = 0; };
+	// -1: nothing emitted, 0 / 1: the `reach` of the emitted answer line
+	int idxReach = -1;
+	void idxBefore(int uPos, size_t n, IdxPre& pre) {
+		pre.have = false; pre.fired0 = arena().firedTotal;
+		if (!sx || uPos < 0 || g_hashFailAfter >= 0) return;
+		auto& hs = tab->mIndexes.mUniqueHashes[(size_t)uPos].mHashSet;
+		uint64_t ticks = g_hashCalls;
+		pre.hold = (uint64_t)hs.GetHashTraits().GetHashCode(tab->mRaws[n]);
+		g_hashCalls = ticks;
+		pre.shot = idxShot(hs, true);
+		pre.have = true;
+	}
+	// after an attempt that answered "ok"; `v` = the values of the row after the update
+	void idxAfter(int uPos, size_t n, int col, const int* v, const IdxPre& pre) {
+		if (!pre.have || g_hashFailAfter >= 0) return;
+		if (arena().firedTotal != pre.fired0) { c.stats.count("idxpred.skipped_fault_swallowed"); return; }
+		if (!pre.shot.sane) { c.stats.count("idxpred.skipped_preexisting_stale"); return; }
+		auto& hs = tab->mIndexes.mUniqueHashes[(size_t)uPos].mHashSet;
+		Raw* raw = tab->mRaws[n];
+		int id = idOfRaw(raw);
+		uint64_t ticks = g_hashCalls;
+		uint64_t hnew = (uint64_t)hs.GetHashTraits().GetHashCode(raw);
+		auto pos = hs.Find(raw);
+		bool reach = !!pos && *pos == raw;
+		g_hashCalls = ticks;
+		uint64_t want = 0; for (int cc : kIdx[0].cols) want += (uint64_t)famInt(v[cc]);
+		if (hnew != want) fail(fmt("harness: the hash code of unique(a,b) of row id %d is %llu, the sum of the family values of its columns is %llu", id, (unsigned long long)hnew, (unsigned long long)want));
+		IdxShot after = idxShot(hs, false);
+		std::string line = fmt("upd raw=%d hold=%llu hnew=%llu count=%zu cap=%zu", id, (unsigned long long)pre.hold, (unsigned long long)hnew, pre.shot.count, pre.shot.cap);
+		line += pre.shot.body;
+		std::string g; for (size_t i = 0; i < after.gensL.size(); ++i) g += fmt(i ? ",%zu" : "%zu", after.gensL[i]);
+		sx->op(line);
+		sx->res(fmt("reach=%d n=%zu cap=%zu g=%s sum=%llu", reach ? 1 : 0, after.count, after.cap, g.c_str(), (unsigned long long)after.sum));
+		idxReach = reach ? 1 : 0;
+		c.stats.count("idxpred.lines");
+		c.stats.count(fmt("idxpred.column_%d", col));
+		if (!reach) c.stats.count("idxpred.unreachable_observed");
+		if (after.gensL != pre.shot.gensL) c.stats.count("idxpred.grew");
+		if (pre.shot.gensL.size() > 1) c.stats.count("idxpred.several_generations_before");
+		if (after.gensL.size() > 1) c.stats.count("idxpred.several_generations_after");
+		if (!after.gensL.empty()) { uint64_t mask = (uint64_t(1) << after.gensL[0]) - 1; if ((pre.hold & mask) == (hnew & mask)) c.stats.count("idxpred.new_and_old_same_home_bucket"); }
+		if ((pre.hold >> 57) == (hnew >> 57)) c.stats.count("idxpred.new_and_old_same_short_hash");
+	}
+
 	// ------------------------------------------------ emit state comparison lines
 	void emitChk(bool full) {
 		IdxDump d = dumpIdx();
@@ -676,9 +779,14 @@ struct Runner {
 		RV g = genRow(); --nextId;
 		x.v[col] = rng.chance(1, 8) ? sh[n].v[col] : g.v[col];
 		int how = (int)rng.below(4);	// the four single-column overloads: TryUpdate / Update x Item&& / const Item&
+		// bucket-level prediction (suite <name>_idx): the column belongs to unique(a,b) and the value changes (otherwise UpdateRaw touches no index)
+		int idxU = (sx && (col == 0 || col == 1) && x.v[col] != sh[n].v[col]) ? uPosOf(0) : -1;
+		idxReach = -1;
 		auto attempt = [&]() -> Outcome {
 			Outcome o;
 			o.line = fmt("updcol %zu %d %d", n, col, x.v[col]);
+			IdxPre pre;
+			if (idxU >= 0) idxBefore(idxU, n, pre);	// at the start of every attempt: a failed attempt may change the shape of the hash set
 			try {
 				CRef ref = (*tab)[n];
 				switch (col) {
@@ -688,6 +796,7 @@ struct Runner {
 				default: o.res = updItem(ref, C::D(), (int)x.v[3], how, n); break;
 				}
 			} catch (const std::bad_alloc&) { o.res = "E:bad_alloc"; }
+			if (idxU >= 0 && o.res == "ok") idxAfter(idxU, n, col, x.v, pre);
 			return o;
 		};
 		static const char* names[4] = { "op.update_column.TryUpdate(Item&&)", "op.update_column.TryUpdate(const Item&)", "op.update_column.Update(Item&&)", "op.update_column.Update(const Item&)" };
@@ -708,6 +817,9 @@ struct Runner {
 		bool f9 = false;
 		bool structural = checkStateQuiet(d, sh[n].id, col, &f9);
 		bool found = lookupFinds(n);
+		if (idxReach == 0 && structural && !f9 && found)
+			fail(fmt("harness: after TryUpdate(row %zu (id %d), column %d, %d) mHashSet.Find(raw) of unique(a,b) does not return the raw (answer line reach=0 of suite %s_idx), "
+				"but the lookups through the indexes find the row: the F9 recognition and the bucket-level observation disagree", n, sh[n].id, col, x.v[col], su.name.c_str()));
 		if (structural && !f9 && found) return;
 		if (structural && (f9 || !found)) {
 			c.fail("C07 known-F9 update-col-stale-entry: suite=%s history=%s op#%llu TryUpdate(row %zu (id %d), column %d, %d) left the raw at the position of its old key "
@@ -1656,6 +1768,8 @@ template<bool tDyn, bool tKeep, size_t tMaxEq>
 static void runAll(Ctx& c, Rng& rng, const char* name)
 {
 	Suite su(c, name, fmt("model table keep=%d maxeq=%zu", tKeep ? 1 : 0, tMaxEq));
+	// bucket level: the hash set of unique(a,b) before / after every successful single-column update of one of its columns (see Runner::idxShot)
+	Suite sx(c, std::string(name) + "_idx", fmt("model tableidx ls=%zu", (size_t)WeakTraits<tMaxEq>::HashBucket::logStartBucketCount));
 	// every subset of {unique(a,b), multi(a), multi(b), multi(s,a)}; each index before or after the data;
 	// sizes: small (<= 80 rows), medium (100..250), big (> 330 rows: more than 64 and more than 192 rows per key of multi(a))
 	for (unsigned subset = 0; subset < 16; ++subset) {
@@ -1673,6 +1787,8 @@ static void runAll(Ctx& c, Rng& rng, const char* name)
 			su.comment("history " + tag);
 			su.op("reset"); su.res("ok");
 			Runner<tDyn, tKeep, tMaxEq> r(c, rng, su, tag);
+			if (subset & 1u) sx.comment("history " + tag);
+			r.sx = &sx;
 			r.run(subset, afterMask, bulk, steps, flavor);
 			c.stats.count(fmt("history.size.%s", size == 2 ? "big" : size == 1 ? "medium" : "small"));
 			c.stats.count(fmt("history.hash_family.%u", g_fam));
